@@ -274,6 +274,18 @@ func (c *scase) deliverHS(e *ep, data []byte, sizes []int, eofAfter bool) {
 			}
 		}
 		r.Count("deadline", "after-success:"+last)
+		// the constructor has returned: no handshake deadline may stay armed, in either direction
+		// (a conn that honours deadlines would fail a Read/Write 30 s after the connection was made)
+		if rdl, wdl := obfskit.DeadlineState(e.sc.EventsCopy()); rdl != 0 || wdl != 0 {
+			half := "read"
+			if rdl == 0 {
+				half = "write"
+			} else if wdl != 0 {
+				half = "read and write"
+			}
+			c.violate("deadline-left-armed-after-handshake", "impl-oracle",
+				fmt.Sprintf("real %s %s: the handshake succeeded and the constructor returned, but the %s deadline of the conn is still armed (read +%.0fs, write +%.0fs): later I/O in that direction times out", "obfs3", e.role, half, rdl.Seconds(), wdl.Seconds()))
+		}
 	}
 }
 
@@ -1138,9 +1150,102 @@ type dhcase struct {
 	PrivA string `json:"priv_a"`
 	PrivB string `json:"priv_b"`
 	Peer  string `json:"peer,omitempty"` // arbitrary peer key bytes for the correspondence of Handshake
+	PrivC string `json:"priv_c,omitempty"` // reuse family: a second initiator against the same parsed key of B
+	Reuse bool   `json:"reuse,omitempty"`
+}
+
+// runDHReuse: key objects are values, not one-shot tokens. One parsed copy of B's public key (and
+// B's PrivateKey object, whose embedded PublicKey is also used as a peer key) serves several
+// Handshake calls — two initiators A and C, repeated exchanges, calls in both directions. Every
+// call must return the secret of the ORIGINAL numbers (= what the other party derives with freshly
+// parsed keys = the Lean sharedSecret), and the key objects must read back unchanged.
+func runDHReuse(c *dhcase) {
+	key, _ := json.Marshal(c)
+	r.Case(string(key), true)
+	r.Count("kind", "dh-reuse")
+	gen := func(h string) *uniformdh.PrivateKey {
+		k, err := uniformdh.GenerateKey(bytes.NewReader(vlib.UnHex(h)))
+		if err != nil {
+			r.Violate("uniformdh-generatekey-fails", "impl-oracle", err.Error(), c)
+		}
+		return k
+	}
+	ka, kb, kc := gen(c.PrivA), gen(c.PrivB), gen(c.PrivC)
+	if ka == nil || kb == nil || kc == nil {
+		return
+	}
+	pub := func(k *uniformdh.PrivateKey) []byte { b, _ := k.PublicKey.Bytes(); return b }
+	paB, pbB, pcB := pub(ka), pub(kb), pub(kc)
+	parse := func(b []byte) *uniformdh.PublicKey {
+		var p uniformdh.PublicKey
+		if err := p.SetBytes(b); err != nil {
+			r.Violate("uniformdh-setbytes-fails", "impl-oracle", err.Error(), c)
+		}
+		return &p
+	}
+	// reference values: the other party's view with freshly parsed keys, and the Lean model
+	fresh := func(k *uniformdh.PrivateKey, peer []byte) []byte { s, _ := safeHandshake(k, parse(peer)); return s }
+	model := func(priv string, peer []byte) string {
+		f := obfskit.Fields(d.Call("dh %s %s", priv, vlib.Hex(peer)))
+		if len(f) != 3 {
+			return "driver:" + strings.Join(f, " ")
+		}
+		return f[2]
+	}
+	wantAB, wantCB := fresh(kb, paB), fresh(kb, pcB) // B's side, computed before anything is reused
+	mAB, mCB := model(c.PrivA, pbB), model(c.PrivC, pbB)
+	shared := parse(pbB) // ONE parsed copy of B's key for everybody
+	type call struct {
+		who  string
+		k    *uniformdh.PrivateKey
+		peer *uniformdh.PublicKey
+		want []byte
+		m    string
+	}
+	calls := []call{
+		{"A with the shared parsed key of B (1st use)", ka, shared, wantAB, mAB},
+		{"C with the shared parsed key of B (2nd use)", kc, shared, wantCB, mCB},
+		{"A with the shared parsed key of B (3rd use)", ka, shared, wantAB, mAB},
+		{"A with B's own PrivateKey.PublicKey (1st use)", ka, &kb.PublicKey, wantAB, mAB},
+		{"C with B's own PrivateKey.PublicKey (2nd use)", kc, &kb.PublicKey, wantCB, mCB},
+		{"B with A's own PrivateKey.PublicKey, after B's key was used as a peer key", kb, &ka.PublicKey, wantAB, mAB},
+		{"B with a fresh parse of C's key, after B's key was used as a peer key", kb, parse(pcB), wantCB, mCB},
+		{"C with the shared parsed key of B (4th use)", kc, shared, wantCB, mCB},
+	}
+	for n, x := range calls {
+		got, pv := safeHandshake(x.k, x.peer)
+		r.Validated(1)
+		if pv != nil {
+			r.Violate("uniformdh-handshake-panics", "impl-oracle", fmt.Sprintf("call %d (%s): %v", n+1, x.who, pv), c)
+			return
+		}
+		if !bytes.Equal(got, x.want) {
+			sig := "secret-history-dependent"
+			if n > 0 && strings.Contains(x.who, "use)") {
+				sig = "handshake-mutates-peer-key"
+			}
+			r.Violate(sig, "impl-oracle",
+				fmt.Sprintf("call %d of a series on the same key objects (%s) returns …%s, but the other party (fresh keys, same numbers) derives …%s: the result of Handshake depends on earlier calls", n+1, x.who, vlib.Hex(tail(got, 8)), vlib.Hex(tail(x.want, 8))), c)
+			return
+		}
+		if vlib.Hex(got) != x.m {
+			r.Violate("uniformdh-differs-from-model", "correspondence",
+				fmt.Sprintf("call %d (%s): real …%s, model %s", n+1, x.who, vlib.Hex(tail(got, 8)), tail([]byte(x.m), 16)), c)
+			return
+		}
+	}
+	// the key objects read back unchanged
+	if sb, _ := shared.Bytes(); !bytes.Equal(sb, pbB) || !bytes.Equal(pub(kb), pbB) || !bytes.Equal(pub(ka), paB) || !bytes.Equal(pub(kc), pcB) {
+		r.Violate("handshake-mutates-peer-key", "impl-oracle", "a key object's Bytes() changed after Handshake calls", c)
+	}
+	r.Count("dh-reuse", privClass(c.PrivA)+"/"+privClass(c.PrivB)+"/"+privClass(c.PrivC))
 }
 
 func runDH(c *dhcase) {
+	if c.Reuse {
+		runDHReuse(c)
+		return
+	}
 	key, _ := json.Marshal(c)
 	a0, b0 := vlib.UnHex(c.PrivA), vlib.UnHex(c.PrivB)
 	r.Case(string(key), true)
@@ -1311,6 +1416,15 @@ func main() {
 	nDH := r.Scale(45, 600)
 	for i := 0; i < nDH; i++ {
 		runDH(&dhcase{Kind: "dh", PrivA: genPriv(g, i), PrivB: genPriv(g, i/9+i)})
+	}
+	// key objects reused across several exchanges, all parity combinations of the three keys
+	for i := 0; i < r.Scale(16, 160); i++ {
+		set := func(h string, bit int) string {
+			b := vlib.UnHex(h)
+			b[keySize-1] = b[keySize-1]&^1 | byte(bit)
+			return vlib.Hex(b)
+		}
+		runDH(&dhcase{Kind: "dh", Reuse: true, PrivA: set(genPriv(g, i), i&1), PrivB: set(genPriv(g, i/8+i+3), i>>1&1), PrivC: set(genPriv(g, 6+i%3), i>>2&1)})
 	}
 	pm1 := strings.ToLower(modpHex[:len(modpHex)-1] + "e")
 	pp1 := strings.ToLower(modpHex[:len(modpHex)-16] + "0000000000000000")
